@@ -257,6 +257,38 @@ def judge_map(month, stride):
         else:
             continue
         break
+    # scalar lookups on ONE instance that straddle a cell boundary at distances from 1e-9 to 1e-2 degree, in both orders,
+    # for every longitude boundary along one row and every latitude boundary along one column: the second lookup must
+    # return ITS cell (a memo keyed on rounded coordinates returns the first one's)
+    c3 = CloudTopHeight(cfg)
+    la_mid = 0.5 * (lats[i0] + lats[i0 + 1])
+    lo_mid = 0.5 * (lons[nlon // 3] + lons[nlon // 3 + 1])
+    pairs = []
+    for d in (1e-9, 1e-6, 1e-3, 1e-2):
+        for j in range(1, nlon - 1, max(1, stride // 4)):
+            pairs.append(((la_mid, lons[j] - d), (la_mid, lons[j] + d)))
+        for i in range(1, nlat - 1, max(1, stride // 4)):
+            pairs.append(((lats[i] - d, lo_mid), (lats[i] + d, lo_mid)))
+    done = False
+    for a, b in pairs:
+        for first, second in ((a, b), (b, a)):
+            for la, lo in (first, second):
+                try:
+                    got = float(c3(float(np.radians(la)), float(np.radians(lo))))
+                except Exception as ex:
+                    out.append(("map_lookup_no_exception", "straddle", [float(la), float(lo)], f"{type(ex).__name__}: {str(ex)[:60]}"))
+                    done = True
+                    break
+                n += 1
+                want = altmap[int(np.searchsorted(lats, la)), int(np.searchsorted(lons, lo))]
+                if not (got == want or abs(got - want) <= 1e-12 * abs(want)):
+                    out.append(("map_cloud_top_of_the_cell_containing_the_site", "straddle", [float(la), float(lo), float(want)], got))
+                    done = True
+                    break
+            if done:
+                break
+        if done:
+            break
     # the result must depend on longitude and on latitude somewhere (a transposed / constant-row lookup does not)
     return out, n
 
